@@ -288,7 +288,8 @@ PROPS["C02"] = dict(
         dict(id="C02.e", mem_gb=13, harness="C02_scgi.cpp", entry="h_c02e_scgi_walk_safety", ctors=False, clang_flags=["-fno-inline"],
              drop=["_ZN6cppcms4impl10string_map3addEPKcS3_"], roots=["verif_env_add"], models=["stubs_c02.c"],
              desc="scgi::on_headers_chunk_read on an arbitrary header block: never reads outside buffer_, completion handler called exactly once",
-             tiers=T(quick=dict(split=[[1, 2, 3]], unwind=20, unwindset={SCGI_WALK: "p0+2", "X_strlen.0": "p0+3", "verif_memcpy.0": "p0+3"}, timeout=900, bounds="17-byte netstring, walked region of 1..3 arbitrary bytes"))),
+             tiers=T(quick=dict(split=[[1, 2]], unwind=20, unwindset={SCGI_WALK: "p0+2", "X_strlen.0": "p0+3", "verif_memcpy.0": "p0+3"}, timeout=900, bounds="17-byte netstring, walked region of 1..2 arbitrary bytes (3 bytes: thorough tier; that instance needs > 13 GB and several minutes alone)"),
+                     thorough=dict(split=[[1, 2, 3]], unwind=20, unwindset={SCGI_WALK: "p0+2", "X_strlen.0": "p0+3", "verif_memcpy.0": "p0+3"}, timeout=1800, bounds="17-byte netstring, walked region of 1..3 arbitrary bytes"))),
         dict(id="C02.g", mem_gb=13, harness="C02_request.cpp", entry="h_c02g_content_start", ctors=False, models=["stubs_httpfile.c"],
              noop=["multipart_parserC[12]E", "multipart_parser16set_content_type"],
              desc="request::on_content_start for an arbitrary 64-bit declared length: returns 0/400/413, never throws, allocates exactly the declared length and only within the configured limit; a negative length is refused",
